@@ -131,7 +131,7 @@ func (e *Engine) Close() { e.busyL.Close() }
 
 func (e *Engine) Name() string { return "E4" }
 
-func (e *Engine) sendEnv() {
+func (e *Engine) SendEnv() {
 	for _, a := range e.Addrs {
 		r, b := "-", "-"
 		if a.ResOK {
@@ -153,7 +153,7 @@ func (e *Engine) sendEnv() {
 }
 
 // parse the first JSON value of text into a JV (key order and duplicates preserved).
-func parseJV(text string) (JV, bool) {
+func ParseJV(text string) (JV, bool) {
 	dec := json.NewDecoder(strings.NewReader(text))
 	dec.UseNumber()
 	var val func() (JV, bool)
@@ -218,7 +218,7 @@ func tokensOfBody(body string) string {
 	if body == "-" || strings.TrimSpace(body) == "" {
 		return "-"
 	}
-	jv, ok := parseJV(body)
+	jv, ok := ParseJV(body)
 	if !ok {
 		return "bad"
 	}
@@ -410,7 +410,7 @@ func (e *Engine) run(ops []string, gen func(snap string) string, n int, res *rep
 		os.WriteFile(e.CurFile, []byte(strings.Join(ops, "\n")+"\n"), 0o644)
 	}
 	e.D.Reset()
-	e.sendEnv()
+	e.SendEnv()
 	e.lastPop = ""
 	logger := zerolog.Nop()
 	srv := toxiproxy.NewServer(toxiproxy.NewMetricsContainer(nil), logger)
@@ -505,3 +505,16 @@ func routeShape(path string) string {
 	}
 	return "/" + strings.Join(segs, "/")
 }
+
+// CanonSnapshot canonicalises the body of GET /proxies.
+func CanonSnapshot(body []byte) string {
+	v, ok := decodeAny(body)
+	if !ok {
+		return "?"
+	}
+	m, _ := v.(map[string]any)
+	return canonMap(m)
+}
+
+// Subst replaces $A, $B, $C by this session's ports.
+func (e *Engine) Subst(s string) string { return e.subst(s) }
